@@ -59,10 +59,11 @@ class M:
 @dataclass
 class Rule:
     mods: List[M]
-    targets: List[str]
+    targets: List[str]                                   # canonical: residue letters, 'N-Term', 'C-Term'
+    spelling: Dict[str, str] = field(default_factory=dict)   # how a terminus is written ('N-term' is ProForma's own)
 
     def text(self) -> str:
-        return ''.join(m.written() for m in self.mods) + '@' + ','.join(self.targets)
+        return ''.join(m.written() for m in self.mods) + '@' + ','.join(self.spelling.get(t, t) for t in self.targets)
 
 
 @dataclass
@@ -428,8 +429,29 @@ def _m(d) -> M:
 def from_json(d: dict) -> Pep:
     return Pep(
         seq=d['seq'], labile=[_m(x) for x in d['labile']],
-        static=[Rule([_m(x) for x in r['mods']], list(r['targets'])) for r in d['static']],
+        static=[Rule([_m(x) for x in r['mods']], list(r['targets']), dict(r.get('spelling') or {})) for r in d['static']],
         isotope=list(d['isotope']), unknown=[_m(x) for x in d['unknown']], nterm=[_m(x) for x in d['nterm']],
         cterm=[_m(x) for x in d['cterm']], res={int(k): [_m(x) for x in v] for k, v in d['res'].items()},
         intervals=[Iv(i['start'], i['end'], i['ambiguous'], [_m(x) for x in i['mods']]) for i in d['intervals']],
         charge=d['charge'], adducts=d['adducts'], charge_text=d.get('charge_text'), start_order=d.get('start_order'))
+
+
+def scrambled(pt, text, rng):
+    """An annotation equal to parse(text) whose residue-modification dictionary and interval list are NOT in
+    positional order - the state reverse(), shuffle() and programmatic add_* calls leave behind."""
+    d = pt.parse(text).dict()
+    if d.get('internal_mods'):
+        items = list(d['internal_mods'].items())
+        if rng.random() < 0.5:
+            items.reverse()
+        else:
+            rng.shuffle(items)
+        d['internal_mods'] = dict(items)
+    if d.get('intervals'):
+        ivs = list(d['intervals'])
+        if rng.random() < 0.5:
+            ivs.reverse()
+        else:
+            rng.shuffle(ivs)
+        d['intervals'] = ivs
+    return pt.create_annotation(**d)
